@@ -70,7 +70,7 @@ PROPS = {
     "C02": dict(units=["worker"], level="proof", assumptions=WORKER_ASSUME + ["wall-clock accuracy of tokio timers is not decided; 'arrive within the window' = received by the worker before the return"],
                 claim="throttle_collect proved by Verus: a non-urgent batch is not returned before first-event time + throttle, an urgent event is the last one received and is never filtered, the recv timeout never exceeds the rest of the window",
                 trusted="stand-ins in prelude/worker_env.rs (virtual clock: only blocking calls let time pass)"),
-    "C15": dict(units=["worker"], level="proof", assumptions=WORKER_ASSUME,
-                claim="throttle_collect proved by Verus: every filter error is sent to the error channel exactly once, in order, the event is not batched and collection continues; only a closed error channel is critical",
-                trusted="stand-ins in prelude/worker_env.rs"),
+    "C15": dict(units=["worker", "errhook"], level="proof", assumptions=WORKER_ASSUME,
+                claim="throttle_collect proved by Verus: every filter error is sent to the error channel exactly once, in order, the event is not batched and collection continues; only a closed error channel is critical. error_hook / ErrorHook::{handle_crit,critical,elevate} proved: each received error handled exactly once, a raised critical is never ignored",
+                trusted="stand-ins in prelude/worker_env.rs, prelude/errhook_env.rs (error channel, OnceLock/Arc cell with ghost owner count, arbitrary error handler); Arc drops are not modelled (owner count at the time of handle_crit)"),
 }
